@@ -409,10 +409,12 @@ impl<Endpoint: Ord + Clone> BlockHandler<Endpoint> {
                 } else {
                     // Client did not ask for it, but we need block encoding
                     // for this to work given our max block size.
+                    // Block sizes end at 1024 bytes (RFC 7959 section 2.2);
+                    // a larger budget does not allow larger blocks.
                     Some(BlockValue::new(
                         0,
                         true, /* more */
-                        max_block_size,
+                        min(max_block_size, 1024),
                     ))
                 }
             }
